@@ -177,6 +177,22 @@ def place(el, mode):
     return ObjectMeta("PlacementModel", (Object,), cd)
 
 
+def instances_in(x, depth=0):
+    """Model instances inside a validation result (the result itself, list items, members), outermost first."""
+    if depth > 8:
+        return
+    if isinstance(type(x), ObjectMeta):
+        yield x
+        for v in getattr(x, "_dict", {}).values():
+            yield from instances_in(v, depth + 1)
+    elif isinstance(x, list):
+        for v in x:
+            yield from instances_in(v, depth + 1)
+    elif isinstance(x, dict):
+        for v in x.values():
+            yield from instances_in(v, depth + 1)
+
+
 def annotation_of(model):
     line = model.properties["p"].python()
     head = line.split(" = ", 1)[0]
@@ -236,6 +252,33 @@ def check_element(st, label, factory, rank=0):
             verdict = judge(tree, attr, ns, top=False)
             if not maybe and isinstance(attr, NotPassed):
                 verdict = False
+            # every model instance inside the value: ITS properties against ITS class's annotations
+            for sub in instances_in(attr):
+                for pname, sprop in type(sub).properties.items():
+                    try:
+                        sann = sprop.python().split(" = ", 1)[0].split(": ", 1)[1]
+                        stree = ast.parse(sann, mode="eval").body
+                        sval = getattr(sub, pname, NP)
+                    except Exception as exc:
+                        st.violation("nested-annotation-unavailable:%s" % type(exc).__name__, "%s [%s]: %s.%s: %r" % (label, mode, type(sub).__name__, pname, exc), {"element": label, "placement": mode}, rank)
+                        continue
+                    smaybe = isinstance(stree, ast.Subscript) and isinstance(stree.value, ast.Name) and stree.value.id == "Maybe"
+                    sns = {c.__name__: c for c in [type(sub)] + list(get_children(type(sub))) if isinstance(c, ObjectMeta)}
+                    sver = judge(stree, sval, {**ns, **sns}, top=False)
+                    if not smaybe and isinstance(sval, NotPassed):
+                        sver = False
+                    if sver is False:
+                        from mc.checks import c19_known
+
+                        skey = c19_known.classify(label, sprop.element, mode, sann, sval)
+                        if skey:
+                            alt = c19_known.annotation_with_first_member_allof(lambda: sprop.python().split(" = ", 1)[0].split(": ", 1)[1])
+                            try:
+                                if judge(ast.parse(alt, mode="eval").body, sval, {**ns, **sns}) is False:
+                                    skey = None
+                            except Exception:
+                                skey = None
+                        st.violation(skey or "annotation-unsound:nested:%s" % sann.split("[")[0], "%s [%s]: %s.%s is annotated %s but holds %r (input %s)" % (label, mode, type(sub).__name__, pname, sann, sval, json.dumps(runner.jsonable(value))[:100]), {"element": label, "placement": mode, "class": type(sub).__name__, "attribute": pname, "annotation": sann, "value": value}, rank)
             st.outcome("sound" if verdict else ("unjudged" if verdict is None else "unsound"))
             if verdict is False:
                 from mc.checks import c19_known
